@@ -100,6 +100,9 @@ func (m heapManager) run() {
 			if data.bar.index < 0 {
 				break
 			}
+			if data.bar.popped {
+				break // the pop priority stays
+			}
 			data.bar.priority = data.priority
 			if !data.lazy {
 				heap.Fix(&bHeap, data.bar.index)
